@@ -1,11 +1,140 @@
 import RpgpModel.Proto
 import RpgpModel.Message
+import RpgpModel.E2E
+import RpgpModel.E2EToy
 namespace Rpgp.Ops.C01
-open Rpgp
+open Rpgp Rpgp.E2E
 
 def showCk (b : Bytes) : String :=
   let (n, x, y) := cksum b
   s!"{n}.{x}.{y}"
+
+def showPkts (ps : List (Nat × Bytes)) : String :=
+  if ps.isEmpty then "-" else ",".intercalate (ps.map fun p => s!"{p.1}.{showCk p.2}")
+
+def showVals (v : Wire.PkeskVals) : String :=
+  match Wire.pkeskValsSer v with
+  | some b => showCk b
+  | none => "x"
+
+def showEsk : WireEsk → String
+  | .pk (.v3 id alg vals) => s!"P3.{hexOrDash id}.{alg.toNat}.{showVals vals}"
+  | .pk (.v6 none alg vals) => s!"P6.-.{alg.toNat}.{showVals vals}"
+  | .pk (.v6 (some (kv, fp)) alg vals) => s!"P6.{toHex (kv :: fp)}.{alg.toNat}.{showVals vals}"
+  | .pk (.other v _) => s!"P?.{v.toNat}"
+  | .sk (.v4 sym s esk) => s!"S4.{sym.toNat}.{toHex (Wire.s2kSer s)}.{showCk esk}"
+  | .sk (.v5 sym s iv esk) => s!"S5.{sym.toNat}.{toHex (Wire.s2kSer s)}.{hexOrDash iv}.{showCk esk}"
+  | .sk (.v6 sym aead s iv esk) => s!"S6.{sym.toNat}.{aead.toNat}.{toHex (Wire.s2kSer s)}.{hexOrDash iv}.{showCk esk}"
+  | .sk (.other v _) => s!"S?.{v.toNat}"
+
+def showEdata : Wire.Seipd → String
+  | .v1 ct => s!"V1.{showCk ct}"
+  | .v2 sym aead cs salt ct => s!"V2.{sym.toNat}.{aead.toNat}.{cs.toNat}.{hexOrDash salt}.{showCk ct}"
+
+def showOps : Option Wire.Ops → String
+  | some (.v3 typ hash pk id last) => s!"3.{typ.toNat}.{hash.toNat}.{pk.toNat}.-.{hexOrDash id}.{last.toNat}"
+  | some (.v6 typ hash pk salt fp last) => s!"6.{typ.toNat}.{hash.toNat}.{pk.toNat}.{hexOrDash salt}.{hexOrDash fp}.{last.toNat}"
+  | some (.unknown v ..) => s!"?{v.toNat}"
+  | none => "x"
+
+def showSig : Option Wire.Sig → String
+  | some (.v4 v6 typ pk hash hashed _ left salt sb) =>
+    s!"{if v6 then 6 else 4}.{typ.toNat}.{pk.toNat}.{hash.toNat}.{showCk ((Wire.areaSer hashed).getD [])}.{hexOrDash left}.{hexOrDash salt}.{showCk (Wire.sigBytesSer sb)}"
+  | some (.v3 ver ..) => s!"v{ver.toNat}"
+  | some (.unknown ver _) => s!"?{ver.toNat}"
+  | none => "x"
+
+/-- the top level of `readFull`: dearmor, packet split, ESK parse + filter, container parse -/
+def top (armored : Bool) (msg : Bytes) : String :=
+  let bin : Option (String × Bytes) :=
+    if armored then
+      match Armor.dearmor false [msg] with
+      | .ok d => some (s!"a.{match d.checksum with | some c => toString c | none => "-"}", d.data)
+      | .error _ => none
+    else some ("-", msg)
+  match bin with
+  | none => "err:armor"
+  | some (ai, b) =>
+    let pk := match splitPackets (b.length + 1) b with
+      | some ps => showPkts ps
+      | none => "x"
+    let t := match parseTop b with
+      | none => "err"
+      | some (.plain _) => "plain"
+      | some (.encrypted esks ed) =>
+        "enc:" ++ (if esks.isEmpty then "-" else ",".intercalate (esks.map showEsk)) ++ ";" ++ showEdata ed
+    s!"ok:{ai}|{pk}|{t}"
+
+/-- the compression level of `readInner` -/
+def inner (s : Bytes) : String :=
+  match deframe s with
+  | .error _ => "err"
+  | .ok (h, body, _) =>
+    if h.tag = Gen.e2eTagCompressed then
+      match body with
+      | [] => "err"
+      | a :: data => s!"z:{a.toNat}.{showCk data}"
+    else "s"
+
+/-- the signed / literal level of `readFull`, with the pre-image every hash slot is fed -/
+def signed (B : Nat) (s : Bytes) : String :=
+  match splitPackets (s.length + 1) s with
+  | none => "err:split"
+  | some pkts =>
+    let ops := pkts.takeWhile fun p => p.1 == Gen.e2eTagOps
+    match pkts.dropWhile fun p => p.1 == Gen.e2eTagOps with
+    | (tag, body) :: sigs =>
+      if tag ≠ Gen.e2eTagLiteral ∨ sigs.any (fun p => p.1 != Gen.e2eTagSignature) ∨ sigs.length ≠ ops.length then "err:grammar"
+      else
+        match Wire.literalParse body with
+        | none => "err:literal"
+        | some lit =>
+          let opsP := ops.map fun p => Wire.opsParse p.2
+          let sigP := sigs.reverse.map fun p => Wire.sigParse (Wire.embFor p.2) p.2
+          let pre := (opsP.zip sigP).map fun os =>
+            match os.1, os.2 with
+            | some o, some sg =>
+              match opsOfWire o, cfgOfSig sg with
+              | some so, some (cfg, _, _) =>
+                match SV.verifyInlineOps B so cfg lit.data with
+                | some p => showCk p
+                | none => "nomatch"
+              | _, _ => "x"
+            | _, _ => "x"
+          let j := fun (l : List String) => if l.isEmpty then "-" else ",".intercalate l
+          s!"ok:lit={lit.mode.toNat}.{hexOrDash lit.name}.{hexOrDash lit.created}.{showCk lit.data}|ops={j (opsP.map showOps)}|sig={j (sigP.map showSig)}|pre={j pre}"
+    | [] => "err:grammar"
+
+/-- model-built legal framings for the reverse direction -/
+def frameOp (a : Args) : Option String := do
+  let tag ← a.nat "tag"
+  let kind ← a.get? "kind"
+  let body ← a.bytes "body"
+  let framed ← match kind with
+    | "fixed" => do frameFixedAs ((← a.nat "fmt") == 1) tag (← a.nat "form") body
+    | "indet" => some ((128 + tag * 4 + 3).toUInt8 :: body)
+    | "partial" => do framePartial tag (← a.natList "segs") body
+    | "emit" => do pure (emitPartial tag (← a.nat "k") (body.take (← a.nat "hdr")) (body.drop (← a.nat "hdr")))
+    | _ => none
+  pure ("ok:" ++ hexOrDash framed)
+
+def toyCfg (s : String) : Option Cfg :=
+  match s with
+  | "A" => some Toy.cfgA
+  | "B" => some Toy.cfgB
+  | "D" => some Toy.cfgD
+  | "Ap" => some { Toy.cfgA with encryption := none }
+  | "Al" => some { Toy.cfgA with encryption := none, signers := [], compression := none, armor := none }
+  | _ => none
+
+def toySecret (s : String) : Option Secret :=
+  match s with
+  | "pw" => some (.password Toy.rcptP.pw)
+  | "pq" => some (.password Toy.rcptQ.pw)
+  | "key" => some (.key Toy.keyK)
+  | "none" => some .none
+  | "bad" => some (.password [0])
+  | _ => none
 
 def handle (op : String) (a : Args) : Option String :=
   match op with
@@ -14,6 +143,28 @@ def handle (op : String) (a : Args) : Option String :=
     match splitPackets (d.length + 1) d with
     | some ps => pure ("ok:" ++ ",".intercalate (ps.map fun p => s!"{p.1}.{showCk p.2}"))
     | none => pure "err"
+  | "e2e_top" => do
+    let m ← a.bytes "msg"
+    pure (top ((← a.nat "armored") == 1) m)
+  | "e2e_inner" => do pure (inner (← a.bytes "data"))
+  | "e2e_signed" => do pure (signed ((a.nat "B").getD Gen.signedManyBufferSize) (← a.bytes "data"))
+  | "e2e_frame" => frameOp a
+  | "e2e_srcok" => do
+    let mode ← a.nat "mode"
+    let cs ← a.list "chunks"
+    pure (okBool (srcOk Toy.prims mode.toUInt8 cs))
+  | "e2e_toy" => do
+    let c ← a.get? "cfg" >>= toyCfg
+    let s ← a.get? "secret" >>= toySecret
+    let n ← a.nat "n"
+    let cut := (a.nat "cut").getD 0
+    let o : ReadOpts := { Toy.opts with verifiers := verifiersFor c }
+    match Toy.run c o s n cut with
+    | none => pure "refused"
+    | some true => pure "ok"
+    | some false => pure "fail"
   | _ => none
+where
+  verifiersFor (c : Cfg) : List Verifier := c.signers.map fun s => ⟨s.key, s.keyVer⟩
 
 end Rpgp.Ops.C01
